@@ -874,7 +874,7 @@ func (r *FnRun) builtin(st *State, fr *frame, instr ssa.Instruction, f *ssa.Buil
 			k(st, st.sym("cap", rt))
 		}
 	case "append":
-		k(st, r.doAppend(st, fr, instr, c, args, rt))
+		r.doAppendK(st, fr, instr, c, args, rt, k)
 	case "copy":
 		dst, src := args[0], args[1]
 		n := r.fresh("copyn", "Int")
@@ -966,31 +966,110 @@ func (r *FnRun) copyElems(st *State, et types.Type, darr, doff, sarr, soff, n st
 	}
 }
 
-func (r *FnRun) doAppend(st *State, fr *frame, instr ssa.Instruction, c *ssa.CallCommon, args []*V, rt types.Type) *V {
+// elemLeaves lists the leaf components of elements of type et.
+func (r *FnRun) elemLeaves(et types.Type) ([]string, string, bool) {
+	fam := "elem:" + r.tn(et)
+	switch r.eng.shape(et) {
+	case KInt:
+		return []string{fam}, "Int", true
+	case KBool:
+		return []string{fam}, "Bool", true
+	case KIface:
+		return []string{fam + "#tag", fam + "#val"}, "Int", true
+	case KSlice:
+		return []string{fam + "#arr", fam + "#off", fam + "#len", fam + "#cap"}, "Int", true
+	}
+	return nil, "", false
+}
+
+// setRow replaces one row of a 2-level leaf.
+func (r *FnRun) setRow(st *State, leaf, ls, arr, row string) {
+	cur := st.comp(leaf, 2, ls)
+	name := r.fresh(leaf, arrSort(2, ls))
+	st.assume(sEq(name, sSto(cur, arr, row)))
+	st.heap[leaf] = name
+	delete(st.wcache, leaf)
+}
+
+// doAppendK models append(a, b...) at the level of backing-array rows. Two continuations: enough capacity
+// (elements written in place, slices sharing the array observe them) or a fresh array holding a copy of a.
+func (r *FnRun) doAppendK(st *State, fr *frame, instr ssa.Instruction, c *ssa.CallCommon, args []*V, rt types.Type, k func(*State, *V)) {
 	a, b := args[0], args[1]
 	sl, ok := c.Args[0].Type().Underlying().(*types.Slice)
 	if !ok || b.K != KSlice {
 		r.abstractNote(st, "append of non-slice")
-		return st.sym("append", rt)
+		k(st, st.sym("append", rt))
+		return
 	}
 	et := sl.Elem()
-	nlen := foldArith("+", a.Len, b.Len)
-	// Result: either in place (enough capacity) or a fresh array holding a copy of a; in both cases the
-	// first len(a) elements equal a's and the next len(b) equal b's. We model the result as a fresh array
-	// when capacity is insufficient, and as the same array otherwise.
-	inPlace := "(<= " + nlen + " " + a.Cap + ")"
-	narr := r.fresh("append.arr", "Int")
-	noff := r.fresh("append.off", "Int")
-	ncap := r.fresh("append.cap", "Int")
-	fresh := st.allocRef()
-	st.assume(sIte(inPlace, sAnd(sEq(narr, a.Arr), sEq(noff, a.Off), sEq(ncap, a.Cap)),
-		sAnd(sEq(narr, fresh), sEq(noff, "0"), "(>= "+ncap+" "+nlen+")")))
-	// contents: copy a then b into the result array
-	if isIntLit(a.Len) && a.Len == "0" && false {
+	leafs, ls, ok := r.elemLeaves(et)
+	if !ok {
+		r.abstractNote(st, "append of struct elements")
+		k(st, st.sym("append", rt))
+		return
 	}
-	r.copyElems(st, et, narr, noff, a.Arr, a.Off, a.Len)
-	r.copyElems(st, et, narr, "(+ "+noff+" "+a.Len+")", b.Arr, b.Off, b.Len)
-	return &V{K: KSlice, T: rt, Arr: narr, Off: noff, Len: nlen, Cap: ncap}
+	nlen := foldArith("+", a.Len, b.Len)
+	nb := -1
+	if isIntLit(b.Len) {
+		fmt.Sscanf(b.Len, "%d", &nb)
+	}
+	// values of b read before anything is modified
+	var bvals []*V
+	if nb >= 0 && nb <= 4 {
+		for j := 0; j < nb; j++ {
+			bvals = append(bvals, r.sliceElem(st, b, j, et))
+		}
+	}
+	bRows := map[string]string{}
+	for _, leaf := range leafs {
+		bRows[leaf] = sSel(st.comp(leaf, 2, ls), b.Arr)
+	}
+	writeB := func(s *State, arr, off string, rowOf func(leaf string) string) {
+		if bvals != nil {
+			for j, v := range bvals {
+				s.store(s.elemLoc(arr, s.ixTerm(off, foldArith("+", a.Len, sInt(int64(j)))), et), v)
+			}
+			return
+		}
+		// symbolic number of appended elements: quantified description of the affected row
+		for _, leaf := range leafs {
+			old := rowOf(leaf)
+			row := r.fresh("row", arrSort(1, ls))
+			i, j := mangle("q:i"), mangle("q:j")
+			lo := s.ixTerm(off, a.Len)
+			s.assume("(forall ((" + j + " Int)) (! (=> (and (<= 0 " + j + ") (< " + j + " " + b.Len + ")) (= (select " + row + " " + s.ixTerm(off, "(+ "+a.Len+" "+j+")") + ") (select " + bRows[leaf] + " " + s.ixTerm(b.Off, j) + "))) :pattern ((select " + bRows[leaf] + " " + s.ixTerm(b.Off, j) + "))))")
+			s.assume("(forall ((" + i + " Int)) (! (=> (or (< " + i + " " + lo + ") (>= " + i + " (+ " + lo + " " + b.Len + "))) (= (select " + row + " " + i + ") (select " + old + " " + i + "))) :pattern ((select " + row + " " + i + "))))")
+			r.setRow(s, leaf, ls, arr, row)
+		}
+	}
+	inPlace := "(<= " + nlen + " " + a.Cap + ")"
+	// 1. in place
+	if inPlace != "false" {
+		s1 := st.clone()
+		s1.assume(inPlace)
+		s1.assume(sNot(sEq(a.Arr, "0")))
+		writeB(s1, a.Arr, a.Off, func(leaf string) string { return sSel(s1.comp(leaf, 2, ls), a.Arr) })
+		s1.trail = append(s1.trail, "append-inplace")
+		k(s1, &V{K: KSlice, T: rt, Arr: a.Arr, Off: a.Off, Len: nlen, Cap: a.Cap})
+	}
+	// 2. reallocation
+	s2 := st.clone()
+	s2.assume(sNot(inPlace))
+	narr := s2.allocRef()
+	ncap := r.fresh("append.cap", "Int")
+	s2.assume("(>= " + ncap + " " + nlen + ")")
+	rows := map[string]string{}
+	for _, leaf := range leafs {
+		old := sSel(s2.comp(leaf, 2, ls), a.Arr)
+		row := r.fresh("row", arrSort(1, ls))
+		i := mangle("q:i")
+		s2.assume("(forall ((" + i + " Int)) (! (=> (and (<= 0 " + i + ") (< " + i + " " + a.Len + ")) (= (select " + row + " " + s2.ixTerm("0", i) + ") (select " + old + " " + s2.ixTerm(a.Off, i) + "))) :pattern ((select " + row + " " + s2.ixTerm("0", i) + "))))")
+		r.setRow(s2, leaf, ls, narr, row)
+		rows[leaf] = row
+	}
+	writeB(s2, narr, "0", func(leaf string) string { return rows[leaf] })
+	s2.trail = append(s2.trail, "append-realloc")
+	k(s2, &V{K: KSlice, T: rt, Arr: narr, Off: "0", Len: nlen, Cap: ncap})
 }
 
 // ---- goroutines, channels ----
